@@ -22,7 +22,7 @@ func (e *Engine) now(s *State) *Term {
 	e.usedModels = true
 	n := s.ghost["now#"]
 	s.ghost["now#"] = n + 1
-	// instants are whole multiples of the 0.5 s tick: now = ticks * T, ticks a 34-bit symbol, monotone
+	// instants are whole multiples of 0.5 s: now = ticks * 4U (U = 1/8 s), ticks a 34-bit symbol, monotone
 	tv := c.Var(fmt.Sprintf("@now%d", n), 34)
 	ticks := c.Zext(tv, 64)
 	s.mvars = append(s.mvars, tv)
@@ -34,7 +34,7 @@ func (e *Engine) now(s *State) *Term {
 	s.pc = append(s.pc, c.Sle(lo, ticks))
 	s.model = nil
 	s.lastNow = ticks
-	return c.mulT(ticks)
+	return c.mulT(c.Mul(ticks, c.BV(4, 64)))
 }
 
 func init() {
@@ -191,8 +191,8 @@ func (e *Engine) divBillion(s *State, d *Term) (*Term, *Term) {
 	}
 	if x, ok := c.isMulT(d); ok {
 		if _, _, ok := srange(x); ok {
-			// d = x ticks of 0.5 s: whole seconds = floor(x / 2)
-			return c.Ashr(x, c.BV(1, 64)), c.Mul(c.BvAnd(x, c.BV(1, 64)), c.BV(tickT, 64))
+			// d = x units of 1/8 s: whole seconds = floor(x / 8)
+			return c.Ashr(x, c.BV(3, 64)), c.Mul(c.BvAnd(x, c.BV(7, 64)), c.BV(tickT, 64))
 		}
 	}
 	n := s.ghost["div#"]
